@@ -406,10 +406,18 @@ def parse_term(line):
 FN_HEAD = re.compile(r"^(fn|const|static|static mut) (.*) \{$")
 
 
+SIMPLE_CONSTS = {}
+
+
 def parse_mir(text):
     """Returns list of Fn."""
     fns = []
     lines = text.split("\n")
+    for l in lines:
+        if l.startswith(("const ", "static ")) and l.endswith(";") and " = const " in l:
+            mm = re.match(r"^(?:const|static) (.*?): (.*?) = const (.*);$", l)
+            if mm:
+                SIMPLE_CONSTS[mm.group(1).split("::")[-1]] = (mm.group(1), mm.group(2), mm.group(3))
     i = 0
     n = len(lines)
     while i < n:
